@@ -127,25 +127,55 @@ def report(mod, prop, tier, seed, ctx, results, wall, pre_info, partial=False):
     known = []
     inconclusive = []
     triaged = []
+    excl_runs = 0
     for r in results:
         q = r.q
         if r.status == "inconclusive":
             inconclusive.append((q.name, r.reason))
         if r.status == "fail":
-            any_rep = False
-            for rep in r.replays:
-                if rep.get("reproduced"):
-                    any_rep = True
-                    f = match_finding(findings, prop, q, rep)
-                    if f:
-                        known.append((f, q, rep))
-                    else:
-                        violations.append((q, rep, save_replay(prop, q, rep, ctx)))
-                else:
-                    inconclusive.append((q.name, "counterexample for '%s' (%s:%s) did not reproduce natively: %s" % (
-                        rep["desc"], rep["file"], rep["line"], rep.get("detail", ""))))
+            reps = [rep for rep in r.replays if rep.get("reproduced")]
+            bad = [rep for rep in r.replays if not rep.get("reproduced")]
+            for rep in bad:
+                inconclusive.append((q.name, "counterexample for '%s' (%s:%s) did not reproduce natively: %s" % (
+                    rep["desc"], rep["file"], rep["line"], rep.get("detail", ""))))
             if not r.replays:
                 inconclusive.append((q.name, "failed without replay"))
+            if not reps:
+                continue
+            # all failed assertions of the query (not only the replayed ones) must be covered by one open finding
+            fnd = None
+            allf = [{"desc": e[1], "property": e[0], "function": e[5], "detail": ""} for e in r.failed]
+            cands = [match_finding(findings, prop, q, x) for x in allf]
+            if cands and all(c is not None for c in cands) and len(set(c["id"] for c in cands)) == 1:
+                fnd = cands[0]
+            if fnd is not None and fnd.get("exclude_define"):
+                # the finding names an input class; the harness is re-run with that class excluded so that any
+                # *other* violation of the property on this skeleton is still reported
+                q2 = core.Query(q.name + "+excl", q.harness, tus=q.tus, env=q.env, defs=dict(q.defs), unwind=q.unwind,
+                                unwindset=q.unwindset, flags=q.flags, timeout=q.timeout, mem_gb=q.mem_gb, params=q.params,
+                                group=q.group, cdefs=q.cdefs, solver=q.solver, leak=q.leak, unwind_rules=q.unwind_rules)
+                q2.defs[fnd["exclude_define"]] = 1
+                r2 = ctx.run_query(q2)
+                excl_runs += 1
+                log("[%s] %-46s %-12s (known finding %s excluded)" % (prop, q2.name, r2.status, fnd["id"]))
+                if r2.status == "pass":
+                    known.append((fnd, q, reps[0]))
+                    r.excluded_pass = True
+                    continue
+                if r2.status == "inconclusive":
+                    inconclusive.append((q2.name, r2.reason))
+                    continue
+                for rep in r2.replays:
+                    if rep.get("reproduced"):
+                        violations.append((q2, rep, save_replay(prop, q2, rep, ctx)))
+                    else:
+                        inconclusive.append((q2.name, "counterexample did not reproduce natively: %s" % rep.get("detail", "")))
+                continue
+            if fnd is not None:
+                known.append((fnd, q, reps[0]))
+                continue
+            for rep in reps:
+                violations.append((q, rep, save_replay(prop, q, rep, ctx)))
     # vacuity across the sweep: every witness of a harness must be reached by at
     # least one query of that harness (each query already needs >= 1 witness)
     if not partial:
